@@ -203,7 +203,55 @@ def check_structure(rng):
             y[other[0]] = v
             if bool(check_bounds(y, P, Rf)) != e:
                 bad.append(("check-bounds-edge", f"check_bounds at coordinate value {v!r} = {not e}", dict(v=v)))
-    return bad, dict(d=d, n=n, kp=kp, kr=kr, one_d=bool(one_d))
+    # the caller keeps ONE pair of index containers and edits them in place between calls (lists: append / pop / clear;
+    # arrays: element assignment): every call must read their current contents, i.e. agree with freshly built containers
+    as_list = bool(rng.random() < 0.6)
+    Pc = list(map(int, per)) if as_list else np.array(per, dtype=int)
+    Rc = list(map(int, ref)) if as_list else np.array(ref, dtype=int)
+    Y = np.where(rng.random((6, d)) < 0.5, rng.uniform(-1.5, 2.5, (6, d)), rng.random((6, d)))
+    n_reuse = 0
+    trace = []        # (contents of the containers at the call, results) - expectations are computed AFTER the sequence, so that no
+                      # call with other container objects sits between two calls of the sequence
+    for step in range(4):
+        with np.errstate(all="ignore"):
+            got_cb = np.asarray(check_bounds(Y, Pc, Rc))
+            got_ap = np.asarray(apply_boundary_conditions(Y.copy(), Pc, Rc))
+            got_cb2 = np.asarray(check_bounds(Y[::-1].copy(), Pc, Rc))[::-1]
+        trace.append((list(map(int, Pc)), list(map(int, Rc)), got_cb.copy(), got_ap.copy(), got_cb2.copy()))
+        n_reuse += 1
+        # edit in place
+        free = [i for i in range(d) if i not in set(map(int, Pc)) | set(map(int, Rc))]
+        which = Pc if (rng.random() < 0.5) else Rc
+        if as_list:
+            r = rng.random()
+            if free and r < 0.45:
+                which.append(int(free[0]))
+            elif len(which) and r < 0.8:
+                which.pop(int(rng.integers(len(which))))
+            elif len(which):
+                which.clear()
+            elif free:
+                which.append(int(free[-1]))
+        else:
+            if free and len(which):
+                which[int(rng.integers(len(which)))] = int(free[int(rng.integers(len(free)))])
+            elif len(Pc) and len(Rc):
+                a_, b_ = int(rng.integers(len(Pc))), int(rng.integers(len(Rc)))
+                Pc[a_], Rc[b_] = Rc[b_], Pc[a_]
+    for step, (pc, rc, got_cb, got_ap, got_cb2) in enumerate(trace):
+        free = [i for i in range(d) if i not in set(pc) | set(rc)]
+        exp_direct = np.all((Y[:, free] >= 0) & (Y[:, free] <= 1), axis=1) if free else np.ones(len(Y), bool)
+        with np.errstate(all="ignore"):
+            exp_ap = np.asarray(apply_boundary_conditions(Y.copy(), list(pc) if as_list else np.array(pc, dtype=int), list(rc) if as_list else np.array(rc, dtype=int)))
+        if not np.array_equal(got_cb.astype(bool), exp_direct) or not np.array_equal(got_cb2.astype(bool), exp_direct):
+            bad.append(("check-bounds-stale-containers", f"call {step + 1} with the same (edited in place) index containers periodic={pc} "
+                        f"reflective={rc}: check_bounds={got_cb.tolist()} expected {exp_direct.tolist()}", dict(d=d)))
+            break
+        if got_ap.tobytes() != exp_ap.tobytes():
+            bad.append(("fold-stale-containers", f"call {step + 1} with the same (edited in place) index containers: folded values differ from those "
+                        f"with freshly built containers", dict(d=d)))
+            break
+    return bad, dict(d=d, n=n, kp=kp, kr=kr, one_d=bool(one_d), reuse=n_reuse)
 
 
 def _batch(seed, start, count, nvals):
@@ -257,6 +305,7 @@ def run():
                 _, idx, desc, n, bad, _ = rec
                 ck.case(dict(struct=desc), nontrivial=bool(desc.get("kp", 0) + desc.get("kr", 0)))
                 ck.event("structure case (untouched coords / 1-D vs 2-D / check_bounds)")
+                ck.event("calls with index containers the caller had edited in place since the previous call", desc.get("reuse", 0))
                 for key, what, wit in bad:
                     ck.violation(key, what, dict(stream=["struct"] + list(idx), detail=wit))
     if not ck.quick:
